@@ -159,7 +159,7 @@ def vocab_program(rng, kind, drv):
     if kind == "table":
         ents = rng.sample(["10=A", "20=t", "21=h", "22=e", "02=B", "0304=the", "41=a", "42=b", "4344=ab"], 5)
         return {"src": "*=0x008000\n.table 'voc.tbl'\n.text 'ABthe ab'\n", "rom": "low_rom", "files": {"voc.tbl": "\n".join(ents) + "\n"}}
-    if kind == "map" and rng.random() < 0.4:
+    if kind == "map-builtin-ids":
         # a layout that re-uses the identifiers of the built-in buses on banks those give to something else
         lo, hi = rng.choice([(0xc0, 0xff), (0x40, 0x6f), (0x80, 0xbf), (0x00, 0x3f)])
         ident = rng.choice([1, 2])
@@ -185,6 +185,11 @@ def vocab_program(rng, kind, drv):
     if kind == "ips":
         recs = b"".join((rng.randrange(0x100, 0x4000)).to_bytes(3, "big") + (n_ := rng.randrange(1, 5)).to_bytes(2, "big") + bytes(rng.randrange(256) for _ in range(n_)) for _ in range(rng.randrange(1, 4)))
         return {"src": f"*=0x008000\n.db 7\n.include_ips 'voc.ips', {rng.choice([0, 0x10, -0x10, 0x200])}\n.db 8\n", "rom": "low_rom", "bins": {"voc.ips": b"PATCH" + recs + b"EOF"}}
+    if kind == "alias-labels":
+        # several labels at one address, several times: their order in the label list is the order of definition, in
+        # every process (nothing may depend on the per-process string hash seed)
+        body = "".join(f"al{k}_a:\nal{k}_b:\nal{k}_zq:\n.db {rng.randrange(256)}\n" for k in range(6))
+        return {"src": "*=0x008000\n" + body + "end_a:\nend_b:\n", "rom": "low_rom"}
     if kind == "file-sfc":
         # an image written to the shared output path by an earlier assembly (larger than what a probe writes), or one that
         # fails after having written its first block
@@ -217,8 +222,8 @@ def run(ctx):
     tmp = core.tmpdir()
     try:
         s = core.Stream("S19-history", "histories of 1-5 assemblies (valid generated programs, programs defining macros / symbols / tables / custom .map layouts with different geometries, programs failing in each phase, different ROM types) followed by a probe (valid, failing, using names only a history program defines, loading its own table / map), all in one fresh interpreter, vs the probe alone in another fresh interpreter; the probe is also repeated; monitor: every module/class-level mutable object and function default of the a816 and script packages is fingerprinted before and after each assembly; non-trivial = distinct (history kinds, probe kind)")
-        kinds = ["macros", "symbols", "table", "map", "failing", "generated", "generated", "include", "incbin", "ips", "file-failing", "file-sfc"]
-        probes = ["uses-undefined", "table", "map", "generated", "symbols", "failing", "macros", "include", "incbin", "ips", "file-probe", "plain-banks", "file-sfc-probe"]
+        kinds = ["macros", "symbols", "table", "map", "failing", "generated", "generated", "include", "incbin", "ips", "file-failing", "file-sfc", "map-builtin-ids"]
+        probes = ["uses-undefined", "table", "map", "generated", "symbols", "failing", "macros", "include", "incbin", "ips", "file-probe", "plain-banks", "file-sfc-probe", "alias-labels"]
         jobs = []
         n = 60 if tier == "quick" else 500
         for i in range(n):
@@ -226,7 +231,7 @@ def run(ctx):
             pk = probes[i % len(probes)]
             # make histories relevant to the probe kind half of the time
             if rng.random() < 0.6:
-                hk[rng.randrange(len(hk))] = {"uses-undefined": rng.choice(["macros", "symbols", "table"]), "table": "table", "map": "map", "plain-banks": "map", "include": "include", "incbin": "incbin", "ips": "ips", "file-probe": "file-failing", "file-sfc-probe": "file-sfc"}.get(pk, pk if pk in kinds else "generated")
+                hk[rng.randrange(len(hk))] = {"uses-undefined": rng.choice(["macros", "symbols", "table"]), "table": "table", "map": "map", "plain-banks": "map-builtin-ids", "include": "include", "incbin": "incbin", "ips": "ips", "file-probe": "file-failing", "file-sfc-probe": "file-sfc"}.get(pk, pk if pk in kinds else "generated")
             if pk == "uses-undefined":
                 hk = hk[:2] + ["macros", "symbols", "table"]   # the names the probe uses are all defined by the history
             history = [vocab_program(rng, k, drv) for k in hk]
@@ -239,6 +244,20 @@ def run(ctx):
                     history.append({"src": rng.choice(["lda #\n", "*=0x008000\n.db 1,\n", "}\n", ".macro m(\n", ".include 'deep0.s'\n", "lda.q 1\n", ".ascii 'x\n", "*=0x008000\nbra far + 300\nfar:\n"]),
                                     "rom": "low_rom", "files": chain})
             probe = vocab_program(rng, pk, drv)
+            if pk == "macros":
+                # always: a history program that fails in the middle of (runaway / nested) macro expansions
+                history.insert(rng.randrange(len(history) + 1), {"src": rng.choice([
+                    "*=0x008000\n.macro load(v) {\n.db v\nload(v + 1)\n}\nload(0)\n", "*=0x008000\n.macro ping(v) {\npong(v)\n}\n.macro pong(v) {\nping(v)\n}\nping(1)\n",
+                    "*=0x008000\n.macro load(v) {\n.db v\nload(v + 1)\n}\n.macro twice(v) {\nload(v)\n}\ntwice(1)\n"]), "rom": "low_rom"})
+                hk = hk + ["failing-in-macro"]
+            if pk == "map":
+                # always: a history program with a custom layout of another geometry over the same banks and addresses
+                for _ in range(8):
+                    other = vocab_program(rng, "map", drv)
+                    if other["src"].split("\n")[0] != probe["src"].split("\n")[0]:
+                        history[0] = other
+                        hk[0] = "map"
+                        break
             d1 = os.path.join(tmp, f"h{i}")
             d2 = os.path.join(tmp, f"a{i}")
             os.makedirs(d1)
